@@ -8,7 +8,7 @@ import (
 type caseWriter struct{ cw *hx.CaseWriter }
 
 func newCaseWriter(o *hx.Opts, res *hx.Result) *caseWriter {
-	return &caseWriter{cw: hx.NewCaseWriter(o, res, "From HI Require Import Corr.Corr_C12.", "hcase", 30)}
+	return &caseWriter{cw: hx.NewCaseWriter(o, res, "From HI Require Import Corr.Corr_C12.", "c12case", 30)}
 }
 
 func (c *caseWriter) add(h History, r runResult) {
@@ -19,8 +19,12 @@ func (c *caseWriter) add(h History, r runResult) {
 			steps = append(steps, cfgsm.CoqStep(h.Steps[i].Restart, ob.Ops, h.Steps[i].Faults, h.Steps[i].QueueFaults,
 				cfgsm.CoqObs(ob.Disk, ob.Err != "", ob.ReloadAsked, runeq)))
 		}
-		return cfgsm.CoqCase(id, h.Shards, h.Inline, steps)
+		return "CInst (" + cfgsm.CoqCase(id, h.Shards, h.Inline, steps) + ")"
 	}, h)
+}
+
+func (c *caseWriter) addLoop(in LoopInput, r loopResult) {
+	c.cw.Add(func(id int) string { return loopCase(id, r) }, in)
 }
 
 func (c *caseWriter) flush() { c.cw.Flush() }
